@@ -582,13 +582,10 @@ func (x *planExec) checkSchema(op *Op, res *OpResult) {
 			x.violate("C20", "schema", op.ID, "C20|schema|missing|"+m, "schema list has no parameter schema object for method %s", m)
 		}
 	}
+	// further entries (a method added later) are none of the property's business: it asks for a
+	// schema for each of the seven
 	if len(v) != len(AllMethods) {
-		var ks []string
-		for k := range v {
-			ks = append(ks, k)
-		}
-		sort.Strings(ks)
-		x.violate("C20", "schema", op.ID, "C20|schema|count", "schema list has %d entries %v, want the seven methods", len(v), ks)
+		x.out.Stats.Cells["schema-list-has-further-entries"]++
 	}
 }
 
@@ -602,7 +599,8 @@ func (x *planExec) checkEcho(op *Op, res *OpResult, method string) {
 		return
 	}
 	got := v["request"]
-	if !jsonEqual(want, got) {
+	// echoing the request exactly as it was sent is as faithful as echoing what was bound from it
+	if !jsonEqual(want, got) && !jsonEqual(op.BodyBytes(), got) {
 		prop := "C09"
 		if x.plan.Property == "C20" {
 			prop = "C20" // "otherwise 400 with an error message and the echoed request"
